@@ -4,7 +4,7 @@ E1: every program of the `fold` and `dce` families x every optimizer option set;
 option set O == trace under the empty set (same build, same process, fresh context each).
 """
 from .. import core
-from ..families import fold_family, dce_family
+from ..families import fold_family, dce_family, ref_family
 
 # bits: CONSTANT_FOLDING=2, STRENGTH_REDUCTION=4, DEAD_CODE_ELIMINATION=8
 ALL_SETS = [0, 2, 4, 8, 6, 10, 12, 14]
@@ -14,6 +14,7 @@ def cases(tier):
     progs = []
     progs += [("fold", p) for p in fold_family(2 if tier == "thorough" else 1, tier)]
     progs += [("dce", p) for p in dce_family(tier)]
+    progs += [("ref", p) for p in ref_family()]
     return progs
 
 
@@ -48,13 +49,13 @@ def run(chk):
     chk.add(evaluations=len(progs) * len(sets), states=len(distinct), transitions=len(progs) * len(sets),
             traces_validated_against_impl=len(progs) * (len(sets) - 1), distinct_nontrivial=nontrivial)
     chk.cov["distinct_outcomes"] = len(outcomes)
-    chk.cov["rule"] = ("E1: all programs of families fold(depth) and dce x optimizer option sets %s; states = distinct program texts, "
+    chk.cov["rule"] = ("E1: all programs of families fold(depth), dce and ref (reference-preserving operators x Reference operands x reference-sensitive contexts) x optimizer option sets %s; states = distinct program texts, "
                        "transitions = executions (program x option set) on the real engine in fresh contexts; non-trivial = printed a line or "
                        "completed with something other than undefined under the empty option set" % sets)
     chk.cov["option_sets"] = sets
     for fam, p in progs[:: max(1, len(progs) // 5)]:
         chk.sample({"family": fam, "src": p})
-    chk.assumptions += ["empty optimizer option set is the reference semantics", "programs outside the two families are not decided"]
+    chk.assumptions += ["empty optimizer option set is the reference semantics", "programs outside the three families are not decided"]
 
 
 def replay(rep):
